@@ -1439,6 +1439,9 @@ class ForAll(BinaryOperator):
         required_vars = HashedIterable()
         required_vars.update(super()._required_variables_from_child_(child, when_true))
         required_vars.update(self.variable._unique_variables_)
+        # ... and the results are compared across those values by the bindings of every other variable of the condition,
+        # selected or not: results that differ in one of them are not duplicates either.
+        required_vars.update(self.condition._unique_variables_)
         return required_vars
 
     @property
